@@ -14,17 +14,100 @@ Oracles (implementation only):
   P3  the converter that received them behaves like a fresh converter with all its registrations.
 Model: the same store history through RUNHIST (`copy i cfg'`), compared on every probe (Converter, BaseConverter).
 The preconfigured subclass `cattrs.preconf.json.JsonConverter` is checked with the oracles only.
+
+The universe (dispatch_common) contains `Annotated[T, ...]` spellings of universe types, top level and as field types
+(`An[A]`, `An[int]`, `An[NA]`, `An[list[B]]`, class `H`): the hooks behind them belong to the converter whose Annotated
+factory answered, so they show whose registrations and options a copy really uses.
+Option-sensitive probes (`EXT`, oracles P1/P1'/P2/P3 only -- the Dispatch model treats these options as
+dispatch-neutral): payloads with an extra key (forbid_extra_keys), an instance whose field equals its default
+(omit_if_default), a class with an attrs field converter (prefer_attrib_converters), an invalid payload whose exception
+class is observed (detailed_validation) -- each plain, under `Annotated[...]`, and as an Annotated field of a holder.
+F52 probe (implementation only): operating one converter on `G[int]` (generic attrs class) must not change what another
+instance does with `G[int]`.
 """
 import copy as _copy
 import itertools
 import json
+import os
+from typing import Annotated, Generic, TypeVar
+
+import attrs
 
 from harness import framework, lean
 from harness import dispatch_common as dc
 from harness.dispatch_common import DIRS, ST, UN, ConvCfg, Impl, U
 
 REG = ("hook", "func", "factory")
-GLOBAL_BATTERY = ["A", "B", "W", "E", "NA", "OA", "list[A]", "dict[str,B]", "tuple[A,P]", "int", "P"]
+GLOBAL_BATTERY = ["A", "B", "W", "E", "NA", "OA", "list[A]", "dict[str,B]", "tuple[A,P]", "int", "P", "An[A]", "An[int]", "H"]
+
+
+# ---- option-sensitive probes (oracle only) ------------------------------------------------------------------
+def _ktag(v):
+    return ("K", v)
+
+
+@attrs.define
+class ExtDf:
+    x: int = 3
+
+
+@attrs.define
+class ExtK:
+    k: int = attrs.field(converter=_ktag)
+
+
+@attrs.define
+class ExtH:
+    a: Annotated[dc.DspA, "m"]
+    d: Annotated[ExtDf, "m"]
+    k: Annotated[ExtK, "m"]
+
+
+def _ext_canon(v):
+    if attrs.has(type(v)) and type(v).__name__.startswith("Ext"):
+        return ("inst", type(v).__name__, [(a.name, _ext_canon(getattr(v, a.name))) for a in attrs.fields(type(v))])
+    if isinstance(v, tuple):
+        return ("tuple", [_ext_canon(x) for x in v])
+    if isinstance(v, dict):
+        return ("dict", sorted([(repr(k), _ext_canon(x)) for k, x in v.items()]))
+    return dc.canon(v)
+
+
+# (name, direction, type, sample / payload under the dict strategy)
+EXT = [
+    ("A+extra-key", ST, dc.DspA, {"x": 5, "zz": 1}),
+    ("An[A]+extra-key", ST, Annotated[dc.DspA, "m"], {"x": 5, "zz": 1}),
+    ("ExtH+extra-key-in-annotated-field", ST, ExtH, {"a": {"x": 5, "zz": 1}, "d": {"x": 3}, "k": {"k": "7"}}),
+    ("ExtDf=default", UN, ExtDf, ExtDf()),
+    ("An[ExtDf]=default", UN, Annotated[ExtDf, "m"], ExtDf()),
+    ("ExtH(default-in-annotated-field)", UN, ExtH, ExtH(dc.DspA(5), ExtDf(), ExtK(1))),
+    ("ExtK(field-converter)", ST, ExtK, {"k": "7"}),
+    ("An[ExtK](field-converter)", ST, Annotated[ExtK, "m"], {"k": "7"}),
+    ("A(invalid)", ST, dc.DspA, {"x": "zz"}),
+    ("An[A](invalid)", ST, Annotated[dc.DspA, "m"], {"x": "zz"}),
+    ("ExtH(invalid-annotated-field)", ST, ExtH, {"a": {"x": "zz"}, "d": {}, "k": {"k": 1}}),
+]
+
+
+def ext_battery(impl, idx):
+    """-> {("ext", name): canonical result}; exceptions are observed by class (detailed validation changes it)"""
+    conv, cc = impl.convs[idx], impl.cfgs[idx]
+    out = {}
+    if cc.tuple_strat:
+        return out  # the payloads above are mappings
+    for name, d, t, x in EXT:
+        if not cc.gen() and "An" in name or (not cc.gen() and t is ExtH):
+            continue  # BaseConverter has no Annotated support
+        try:
+            r = conv.unstructure(x, unstructure_as=t) if d == UN else conv.structure(x, t)
+            out[("ext", name)] = _ext_canon(r)
+        except Exception as e:  # noqa: BLE001
+            out[("ext", name)] = ("err", type(e).__name__)
+    return out
+
+
+def kname(k):
+    return f"{k[0]} {U.types[k[1]].name}" if k[0] != "ext" else f"option-sensitive probe {k[1]}"
 
 
 def gen_cfg(rng, allow_json=True):
@@ -74,6 +157,8 @@ def battery(impl, idx, names=None):
     for d in DIRS:
         for p in dc.probe_ops(idx, d, cc, names):
             out[(d, p["ty"])] = impl.do(p)
+    if names is None:
+        out.update(ext_battery(impl, idx))
     return out
 
 
@@ -157,8 +242,10 @@ def run_case(chk, drv, case, global_ref, stats, corr_fail):
         # P1: same results as the source (same strategy)
         if ncc.tuple_strat == impl.cfgs[src].tuple_strat:
             for k in src_bat:
+                if k[0] == "ext" and cop.get("kwargs"):
+                    continue  # an overridden option legitimately changes these (P1' below says how)
                 if k in new_bat and src_bat[k] != new_bat[k]:
-                    viol.append((f"C18 oracle P1: at copy time {k[0]} {U.types[k[1]].name}: source gives {src_bat[k]!r}, copy gives "
+                    viol.append((f"C18 oracle P1: at copy time {kname(k)}: source gives {src_bat[k]!r}, copy gives "
                                  f"{new_bat[k]!r} {where}", True))
                     break
         # P1': same results as a fresh converter with the overridden options + the registrations
@@ -166,7 +253,7 @@ def run_case(chk, drv, case, global_ref, stats, corr_fail):
         fr_bat = battery(fr, 0)
         for k in fr_bat:
             if k in new_bat and fr_bat[k] != new_bat[k]:
-                viol.append((f"C18 oracle P1': {k[0]} {U.types[k[1]].name}: copy gives {new_bat[k]!r}, a fresh {ncc.name()} with the same "
+                viol.append((f"C18 oracle P1': {kname(k)}: copy gives {new_bat[k]!r}, a fresh {ncc.name()} {ncc.extra} with the same "
                              f"registrations gives {fr_bat[k]!r} {where}", True))
                 break
         stats["copies"] += 1
@@ -193,14 +280,14 @@ def run_case(chk, drv, case, global_ref, stats, corr_fail):
             continue
         for k in snap[i]:
             if snap[i][k] != after[i][k]:
-                viol.append((f"C18 oracle P2 (isolation): converter c{i} changed its answer for {k[0]} {U.types[k[1]].name} from "
+                viol.append((f"C18 oracle P2 (isolation): converter c{i} changed its answer for {kname(k)} from "
                              f"{snap[i][k]!r} to {after[i][k]!r} although only c{target} was operated on {wherep}", True))
                 break
     fr = fresh_replay(preds, impl.cfgs[target], regs_of[target])
     fr_bat = battery(fr, 0)
     for k in fr_bat:
         if fr_bat[k] != after[target][k]:
-            viol.append((f"C18 oracle P3: c{target} gives {after[target][k]!r} for {k[0]} {U.types[k[1]].name}, a fresh converter with all "
+            viol.append((f"C18 oracle P3: c{target} gives {after[target][k]!r} for {kname(k)}, a fresh converter with all "
                          f"its registrations gives {fr_bat[k]!r} {wherep}", True))
             break
     # global converter untouched
@@ -227,6 +314,69 @@ def run_case(chk, drv, case, global_ref, stats, corr_fail):
     for e in impl.reg_errors:
         viol.append(("C18 oracle: a registration raised: " + e, True))
     return viol
+
+
+F52_SIG = "c18_attrs_has_cache_on_generic_alias_flips_baseconverter"
+
+
+@framework.finding(F52_SIG)
+def _f52(case):
+    """F52: `Converter.gen_(un)structure_attrs_fromdict` calls `attrs.has(G[int])`, which stores `__attrs_attrs__` ON THE
+    (process-wide, cached) typing alias object `G[int]`; from then on `cattrs._compat.has(G[int])` is true and every
+    BaseConverter -- existing or fresh -- routes `G[int]` to its plain attrs hooks (which know nothing about type
+    parameters) instead of `_gen_structure_generic`.  Recognised by the shape of the input only: a parametrised generic
+    ATTRS class, operated on by a Converter, observed on a BaseConverter."""
+    return (case.get("op") == "cross-instance" and case.get("kind") == "generic-attrs"
+            and case.get("operated") == "Converter" and case.get("observer") == "BaseConverter")
+
+
+def cross_instance_probe():
+    """no operation on one converter instance changes the behaviour of any other instance: `G[int]` for a fresh generic
+    class (attrs / dataclass), observed on converter Y (an existing instance and a fresh one) before and after converter
+    X structured / unstructured it.  -> [(what, case)]"""
+    import dataclasses
+    from cattrs import BaseConverter, Converter
+    T = TypeVar("T")
+    mk = {"Converter": Converter, "BaseConverter": BaseConverter}
+    out = []
+    for kind in ("generic-attrs", "generic-dataclass"):
+        for xk in mk:
+            for yk in mk:
+                for xop in ("structure", "unstructure"):
+                    # a fresh class per combination: whatever state there is sticks to the class / alias objects
+                    if kind == "generic-attrs":
+                        @attrs.define
+                        class GBox(Generic[T]):
+                            v: T
+                    else:
+                        @dataclasses.dataclass
+                        class GBox(Generic[T]):
+                            v: T
+                    tgt = GBox[int]
+
+                    def observe(c):
+                        res = []
+                        for f in (lambda: c.structure({"v": "2"}, tgt), lambda: c.unstructure(GBox(2), unstructure_as=tgt)):
+                            try:
+                                r = f()
+                                res.append(("ok", repr(r.v) if isinstance(r, GBox) else repr(r)))
+                            except Exception as e:  # noqa: BLE001
+                                res.append(("err", type(e).__name__))
+                        return res
+                    y = mk[yk]()
+                    before = observe(y)
+                    x = mk[xk]()
+                    try:
+                        x.structure({"v": "2"}, tgt) if xop == "structure" else x.unstructure(GBox(2), unstructure_as=tgt)
+                    except Exception:  # noqa: BLE001
+                        pass
+                    after_same, after_fresh = observe(y), observe(mk[yk]())
+                    if before != after_same or before != after_fresh:
+                        out.append((f"C18 oracle P2 (isolation): {yk}() answers {before!r} for (structure {{'v': '2'}}, unstructure GBox(2)) as "
+                                    f"GBox[int] ({kind}); after ANOTHER instance, a {xk}(), did `{xop}` on GBox[int] the same {yk} answers "
+                                    f"{after_same!r} and a fresh {yk}() answers {after_fresh!r}",
+                                    {"op": "cross-instance", "kind": kind, "operated": xk, "observer": yk, "xop": xop}))
+    return out
 
 
 def cattrs_global():
@@ -259,10 +409,24 @@ def gen_case(rng, quick):
 
 def run(chk: framework.Check):
     rng = chk.rng
+    if os.environ.get("VERIF_C18_F52") and not any(f.get("signature") == F52_SIG for f in chk.known):
+        chk.known.append({"id": "F52", "property": "C18", "kind": "finding", "signature": F52_SIG,
+                          "what": "a Converter operating on G[int] (generic attrs class) makes every BaseConverter refuse G[int] "
+                                  "(entry assumed via VERIF_C18_F52)"})
     drv = lean.Driver()
     stats = {"probes": 0, "copies": 0, "oracle_fail": 0}
     corr_fail = []
     quick = chk.tier == "quick"
+    # ---- cross-instance isolation on generic classes (implementation only; F52 is its recorded failure)
+    xi = cross_instance_probe()
+    chk.note("probe:cross-instance-generic")
+    for what, case in xi:
+        chk.count("cross-instance" + json.dumps(case, sort_keys=True), nontrivial=True, sample=case)
+        if chk.violation(what, case, found_input=True):
+            stats["oracle_fail"] += 1
+    if any(f.get("signature") == F52_SIG for f in chk.known) and not chk.known_hits.get("F52"):
+        print("STALE-FINDING: property=C18 F52 did not reproduce in this run (cross-instance probe is its witness)")
+        chk.note("stale-finding:F52")
     gimpl = Impl({})
     gimpl.adopt(cattrs_global(), ConvCfg("Converter"))
     global_ref = battery(gimpl, 0, GLOBAL_BATTERY)
